@@ -30,6 +30,8 @@ macro_rules! det_section { ($s:expr, $N:expr, $R:ident, $C:ident, $d:expr) => {{
             ("col transposed().determinant", s.call("det", inp, || c.transposed().determinant())),
             ("Cols::from(rows).determinant", s.call("det", inp, || cm::$C::<X>::from(r).determinant())),
             ("Rows::from(cols).determinant", s.call("det", inp, || rm::$R::<X>::from(c).determinant())),
+            ("row transpose() in place, then determinant", s.call("det", inp, || { let mut m = r; m.transpose(); m.determinant() })),
+            ("col transpose() in place, then determinant", s.call("det", inp, || { let mut m = c; m.transpose(); m.determinant() })),
         ] {
             s.eval(nz);
             if let Some(g) = got { if g != want { s.violation_w(&format!("Mat{} {}", N, site), "not-the-leibniz-expansion", json!({"M": inp(), "got": jx(g), "want": jx(want)}), w); } }
@@ -51,6 +53,174 @@ macro_rules! detmul_section { ($s:expr, $N:expr, $R:ident, $C:ident, $d:expr) =>
         }
     });
     s.meta(&format!("lattice N={}", N), json!({"n": 2 * N * N, "order": $d, "points": lattice_count(2 * N * N, $d).to_string()}));
+}} }
+
+// ---------------------------------------------------------------------------------------------------------------------------------
+// round-b additions (audit): machine element types, signed alphabets, operator forms, float inverses against the exact adjugate,
+// fast inverses against a reference built from the parameters (no vek call in the oracle), scales near the "negligible" threshold.
+
+/// Signed affine image of a lattice point: e_k = s_k * p_k + b_k, s_k = +-1 in a checkerboard, b_k a fixed small offset.
+/// (An injective affine change of variables per coordinate keeps the simplex lattice unisolvent.)
+fn signed_entries<const N: usize>(p: &[i64], shift: usize) -> A<i64, N> {
+    const B: [i64; 7] = [0, 1, -2, 0, 3, -1, 2];
+    let mut m = [[0i64; N]; N];
+    for i in 0..N { for j in 0..N { let k = i * N + j; let sg = if (i + j + shift) % 2 == 0 { 1 } else { -1 }; m[i][j] = sg * p[k] + B[(k + 3 * shift) % 7]; } }
+    m
+}
+fn flat_entries<const N: usize>(p: &[i64]) -> A<i64, N> { let mut m = [[0i64; N]; N]; for i in 0..N { for j in 0..N { m[i][j] = p[i * N + j]; } } m }
+/// Leibniz expansion in i128 with the permutation table passed in (hot loops)
+fn det_perm<const N: usize>(a: &A<i64, N>, perms: &[(Vec<usize>, i64)]) -> i128 {
+    let mut s = 0i128;
+    for (p, sg) in perms { let mut t = *sg as i128; for i in 0..N { t *= a[i][p[i]] as i128; } s += t; }
+    s
+}
+/// all tuples of `n` letters, parallel over the first min(n,4) coordinates; `f` returns (evaluations, non-trivial) which are flushed per prefix
+fn par_cube(s: &Section, alph: &[i64], n: usize, f: impl Fn(&[i64]) -> (u64, u64) + Sync) {
+    use rayon::prelude::*;
+    let split = n.min(4);
+    let mut prefixes: Vec<Vec<i64>> = Vec::new();
+    tuples(alph, split, |p| prefixes.push(p.to_vec()));
+    prefixes.par_iter().for_each(|pre| {
+        let (mut ev, mut nt) = (0u64, 0u64);
+        let mut cur = vec![0i64; n]; cur[..split].copy_from_slice(pre);
+        if n == split { let (a, b) = f(&cur); ev += a; nt += b; }
+        else { let mut rest_buf = vec![0i64; n]; rest_buf[..split].copy_from_slice(pre);
+               tuples(alph, n - split, |rest| { rest_buf[split..].copy_from_slice(rest); let (a, b) = f(&rest_buf); ev += a; nt += b; }); }
+        s.evals(ev, nt);
+    });
+}
+
+/// determinant() of one machine element type on one integer matrix (both layouts; with `full`: transposed, in-place transpose, layout change)
+macro_rules! det_ty { ($s:expr, $N:expr, $R:ident, $C:ident, $T:ty, $e:expr, $want:expr, $w:expr, $full:expr) => {{
+    let s: &Section = $s; let e: &A<i64, $N> = $e; let f: bool = $full;
+    let a: A<$T, $N> = std::array::from_fn(|i| std::array::from_fn(|j| e[i][j] as $T));
+    let want = $want as $T;
+    let (r, c) = (rm::$R::<$T>::build(&a), cm::$C::<$T>::build(&a));
+    let inp = || json!(e);
+    let sites: [(&str, Option<$T>); 8] = [
+        ("row determinant", s.call("det", inp, || r.determinant())),
+        ("col determinant", s.call("det", inp, || c.determinant())),
+        ("row transposed().determinant", if f { s.call("det", inp, || r.transposed().determinant()) } else { None }),
+        ("col transposed().determinant", if f { s.call("det", inp, || c.transposed().determinant()) } else { None }),
+        ("row transpose() in place, then determinant", if f { s.call("det", inp, || { let mut m = r; m.transpose(); m.determinant() }) } else { None }),
+        ("col transpose() in place, then determinant", if f { s.call("det", inp, || { let mut m = c; m.transpose(); m.determinant() }) } else { None }),
+        ("Cols::from(rows).determinant", if f { s.call("det", inp, || cm::$C::<$T>::from(r).determinant()) } else { None }),
+        ("Rows::from(cols).determinant", if f { s.call("det", inp, || rm::$R::<$T>::from(c).determinant()) } else { None }),
+    ];
+    let mut n = 0u64;
+    for (site, got) in sites { if let Some(g) = got { n += 1; if g != want {
+        s.violation_w(&format!("Mat{}<{}> {}", $N, stringify!($T), site), "not-the-leibniz-expansion", json!({"M": inp(), "got": format!("{:?}", g), "want": format!("{:?}", want)}), $w); } } }
+    n
+}} }
+macro_rules! det_types_case { ($s:expr, $N:expr, $R:ident, $C:ident, $e:expr, $perms:expr, $all:expr) => {{
+    let e: A<i64, $N> = $e;
+    let want: i128 = det_perm::<$N>(&e, $perms);
+    let w: u64 = e.iter().flatten().map(|v| v.unsigned_abs()).sum();
+    let mut n = det_ty!($s, $N, $R, $C, i64, &e, want, w, $all);
+    n += det_ty!($s, $N, $R, $C, f64, &e, want, w, $all);
+    if $all { n += det_ty!($s, $N, $R, $C, i32, &e, want, w, true); n += det_ty!($s, $N, $R, $C, f32, &e, want, w, true); }
+    (n, if want != 0 { n } else { 0 })
+}} }
+
+macro_rules! detmul_forms { ($s:expr, $N:expr, $R:ident, $C:ident, $d:expr) => {{
+    let s: &Section = $s; const N: usize = $N;
+    par_lattice(2 * N * N, $d, |p| {
+        let (ea, eb) = (signed_entries::<N>(&p[..N * N], 0), signed_entries::<N>(&p[N * N..], 1));
+        let a: A<X, N> = std::array::from_fn(|i| std::array::from_fn(|j| qi(ea[i][j] as i128)));
+        let b: A<X, N> = std::array::from_fn(|i| std::array::from_fn(|j| qi(eb[i][j] as i128)));
+        let want = det(&a) * det(&b);
+        let inp = || json!({"A": jmat(&a), "B": jmat(&b)});
+        for (site, got) in [
+            ("row*col", s.call("detmul", inp, || (rm::$R::<X>::build(&a) * cm::$C::<X>::build(&b)).determinant())),
+            ("col*row", s.call("detmul", inp, || (cm::$C::<X>::build(&a) * rm::$R::<X>::build(&b)).determinant())),
+            ("row*=row", s.call("detmul", inp, || { let mut m = rm::$R::<X>::build(&a); m *= rm::$R::<X>::build(&b); m.determinant() })),
+            ("col*=col", s.call("detmul", inp, || { let mut m = cm::$C::<X>::build(&a); m *= cm::$C::<X>::build(&b); m.determinant() })),
+            ("row*row(signed)", s.call("detmul", inp, || (rm::$R::<X>::build(&a) * rm::$R::<X>::build(&b)).determinant())),
+            ("col*col(signed)", s.call("detmul", inp, || (cm::$C::<X>::build(&a) * cm::$C::<X>::build(&b)).determinant())),
+        ] {
+            s.eval(want != qi(0));
+            if let Some(g) = got { if g != want { s.violation_w(&format!("Mat{}<{}> determinant of a product", N, site), "not-multiplicative", json!({"input": inp(), "got": jx(g), "want": jx(want)}), p.iter().sum::<i64>() as u64); } }
+        }
+    });
+    s.meta(&format!("lattice N={}", N), json!({"n": 2 * N * N, "order": $d, "points": lattice_count(2 * N * N, $d).to_string()}));
+}} }
+
+/// inverted()/invert() of one float type on M = E * 2^-k (E small integers, exact) against adj(E)/det(E) * 2^k; the cofactors and the
+/// determinant are exact in the float type (integers below 2^24 times a power of two), so the result carries exactly two roundings
+/// (the reciprocal of the determinant and the final product): |got - want| <= ((1+u)^2 - 1)|want| < 2 EPSILON |want|.
+macro_rules! inv_float { ($s:expr, $T:ty, $e:expr, $aref:expr, $dref:expr, $ks:expr, $w:expr) => {{
+    let s: &Section = $s; let e: &A<i64, 4> = $e;
+    let tn = stringify!($T);
+    let two_eps = vx::Q::new(1, 1i128 << (if tn == "f64" { 51 } else { 22 }));
+    for &k in $ks {
+        let k: i32 = k;
+        let sc: $T = (2.0 as $T).powi(-k);
+        let m: A<$T, 4> = std::array::from_fn(|i| std::array::from_fn(|j| e[i][j] as $T * sc));
+        let inp = || json!({"E": e, "M": "E * 2^-k", "k": k});
+        for (site, got) in [
+            ("row inverted", s.call("inv", inp, || rm::Mat4::<$T>::build(&m).inverted().decode())),
+            ("col inverted", s.call("inv", inp, || cm::Mat4::<$T>::build(&m).inverted().decode())),
+            ("row invert", s.call("inv", inp, || { let mut x = rm::Mat4::<$T>::build(&m); x.invert(); x.decode() })),
+            ("col invert", s.call("inv", inp, || { let mut x = cm::Mat4::<$T>::build(&m); x.invert(); x.decode() })),
+        ] {
+            s.eval(true); s.class(tn); s.class(if k == 0 { "unscaled" } else if k > 0 { "scaled-down (tiny determinant)" } else { "scaled-up (huge determinant)" });
+            let Some(g) = got else { continue };
+            let mut bad: Option<(usize, usize)> = None;
+            for i in 0..4 { for j in 0..4 {
+                let gn = (g[i][j] * sc) as f64; // exact: power-of-two rescaling back to the magnitude of adj/det
+                let ok = catch(|| match vx::Q::from_f64(gn) { None => false, Some(gq) => { let want = vx::Q::new($aref[i][j], $dref); gq.sub(want).abs() <= two_eps.mul(want.abs()) } });
+                match ok { Ok(true) => {}, Ok(false) => { if bad.is_none() { bad = Some((i, j)); } }, Err(_) => s.unmodelled("overflow in the exact float comparison") }
+            } }
+            if let Some((i, j)) = bad { s.violation_w(&format!("Mat4<{}> {}", tn, site), "float-inverse-not-within-two-roundings-of-adjugate-over-determinant",
+                json!({"E": e, "M = E * 2^-k, k": k, "entry": [i, j], "got": format!("{:e}", g[i][j]), "want": format!("{}/{} * 2^{}", $aref[i][j], $dref, k)}), $w + k.unsigned_abs() as u64); }
+        }
+    }
+}} }
+
+/// fast inverses of one float type: residuals of M*inv and inv*M against bounds derived from the construction of M = T*R*S
+/// (see the section rule); value and in-place forms must agree bit for bit.
+macro_rules! fast_float { ($s:expr, $T:ty, $nang:expr, $scales:expr) => {{
+    let s: &Section = $s; let tn = stringify!($T);
+    let eps = <$T>::EPSILON as f64; let cc = 64.0 * eps;
+    let nang: usize = $nang;
+    for ai in 0..nang { let ang = -6.2 + 0.0137 + ai as f64 * (12.4 / nang as f64);
+        for ax in -1i32..=1 { for ay in -1i32..=1 { for az in -1i32..=1 { if (ax, ay, az) == (0, 0, 0) { continue; }
+            let n = ((ax * ax + ay * ay + az * az) as f64).sqrt();
+            let k = [ax as f64 / n, ay as f64 / n, az as f64 / n];
+            let (c, sn) = (ang.cos(), ang.sin());
+            let mut r = [[0.0f64; 3]; 3];
+            for j in 0..3 { let mut e = [0.0; 3]; e[j] = 1.0; let kxe = [k[1] * e[2] - k[2] * e[1], k[2] * e[0] - k[0] * e[2], k[0] * e[1] - k[1] * e[0]]; let kd = k[j]; for i in 0..3 { r[i][j] = e[i] * c + kxe[i] * sn + k[i] * kd * (1.0 - c); } }
+            for t in [[0.0f64, 0.0, 0.0], [1.5, -2.0, 3.0], [-1000.0, 7.0, 0.25]] { for sc in $scales {
+                let sc: [f64; 3] = sc;
+                let mut m = [[0.0 as $T; 4]; 4]; for i in 0..3 { for j in 0..3 { m[i][j] = (r[i][j] as $T) * (sc[j] as $T); } m[i][3] = t[i] as $T; } m[3][3] = 1.0;
+                let unit = sc == [1.0, 1.0, 1.0];
+                let t1: f64 = 1.0 + t.iter().map(|v| v.abs()).sum::<f64>();
+                let chk = |name: &str, inv: A<$T, 4>, inplace: A<$T, 4>| {
+                    s.eval(true); s.class(tn); s.class(if unit { "rigid" } else if sc.iter().any(|v| v.abs() < 0.01) { "trs-small-scale-above-threshold" } else { "trs" });
+                    let detail = || json!({"angle": ang, "axis": [ax, ay, az], "t": t, "scale": sc});
+                    if (0..4).any(|i| (0..4).any(|j| inv[i][j].to_bits() != inplace[i][j].to_bits())) { s.violation(&format!("Mat4<{}>::{}", tn, name), "in-place-form-differs", detail()); }
+                    let mut worst: Option<(usize, usize, &str, f64, f64)> = None;
+                    for i in 0..4 { for j in 0..4 {
+                        let (mut l, mut rr) = (0.0f64, 0.0f64);
+                        for kk in 0..4 { l += m[i][kk] as f64 * inv[kk][j] as f64; rr += inv[i][kk] as f64 * m[kk][j] as f64; }
+                        let w = if i == j { 1.0 } else { 0.0 };
+                        let (bl, br) = if i == 3 { (cc, cc) } else if j == 3 { (cc * t1, cc * t1 / sc[i].abs()) } else { (cc, cc * sc[j].abs() / sc[i].abs()) };
+                        if !((l - w).abs() <= bl) && worst.is_none() { worst = Some((i, j, "M*inv", (l - w).abs(), bl)); }
+                        if !((rr - w).abs() <= br) && worst.is_none() { worst = Some((i, j, "inv*M", (rr - w).abs(), br)); }
+                    } }
+                    if let Some((i, j, side, res, bound)) = worst { s.violation(&format!("Mat4<{}>::{}", tn, name), "not-an-inverse-within-derived-error-bound", json!({"input": detail(), "entry": [i, j], "side": side, "residual": res, "bound": bound})); }
+                };
+                chk("inverted_affine_transform(col)", cm::Mat4::<$T>::build(&m).inverted_affine_transform().decode(), { let mut x = cm::Mat4::<$T>::build(&m); x.invert_affine_transform(); x.decode() });
+                chk("inverted_affine_transform(row)", rm::Mat4::<$T>::build(&m).inverted_affine_transform().decode(), { let mut x = rm::Mat4::<$T>::build(&m); x.invert_affine_transform(); x.decode() });
+                if unit {
+                    chk("inverted(col)", cm::Mat4::<$T>::build(&m).inverted().decode(), { let mut x = cm::Mat4::<$T>::build(&m); x.invert(); x.decode() });
+                    chk("inverted(row)", rm::Mat4::<$T>::build(&m).inverted().decode(), { let mut x = rm::Mat4::<$T>::build(&m); x.invert(); x.decode() });
+                    chk("inverted_affine_transform_no_scale(col)", cm::Mat4::<$T>::build(&m).inverted_affine_transform_no_scale().decode(), { let mut x = cm::Mat4::<$T>::build(&m); x.invert_affine_transform_no_scale(); x.decode() });
+                    chk("inverted_affine_transform_no_scale(row)", rm::Mat4::<$T>::build(&m).inverted_affine_transform_no_scale().decode(), { let mut x = rm::Mat4::<$T>::build(&m); x.invert_affine_transform_no_scale(); x.decode() });
+                }
+            } }
+        } } }
+    }
 }} }
 
 fn main() {
@@ -259,6 +429,125 @@ fn main() {
             } } }
         }
         s.sample(json!({"angle": -6.2, "axis": [1, -1, 0], "t": [1.5, -2.0, 3.0], "scale": [2.0, 0.5, 3.0]}));
+    });
+
+    // ------------------------------------------------------------------------------------------------------------------------------
+    // round-b sections
+    rep.section("determinant: machine element types and signed entries",
+        "determinant() of i32, i64, f32, f64 matrices (both layouts; transposed(), transpose() in place, layout change) against the Leibniz expansion in i128; inputs: the signed affine image e = +-p + b of L(N^2, D) (N=2: D=6, N=3: D=5, N=4: D=4 quick / 6 thorough) and full signed cubes: N=2 {-3..3}^4, N=3 {-1,0,1}^9 (thorough {-2..2}^9), N=4 {-1,1}^16 (thorough additionally {-1,0,1}^16 on i64 and f64, plain determinant only); all values are small integers, so the float determinants are exact; non-trivial: det != 0", true, false, |s| {
+        s.require_classes(&["N=2", "N=3", "N=4", "negative-determinant", "zero-determinant"]);
+        let (p2, p3, p4) = (signed_permutations(2), signed_permutations(3), signed_permutations(4));
+        let cls = |n: &str, e: &[i64], want_sign: i128| { let _ = e; s.class(n); if want_sign < 0 { s.class("negative-determinant"); } else if want_sign == 0 { s.class("zero-determinant"); } };
+        par_lattice(4, 6, |p| { let e = signed_entries::<2>(p, 0); cls("N=2", p, det_perm::<2>(&e, &p2)); let (n, nt) = det_types_case!(s, 2, Mat2, Mat2, e, &p2, true); s.evals(n, nt); });
+        par_lattice(9, 5, |p| { let e = signed_entries::<3>(p, 0); cls("N=3", p, det_perm::<3>(&e, &p3)); let (n, nt) = det_types_case!(s, 3, Mat3, Mat3, e, &p3, true); s.evals(n, nt); });
+        par_lattice(16, if th { 6 } else { 4 }, |p| { let e = signed_entries::<4>(p, 0); cls("N=4", p, det_perm::<4>(&e, &p4)); let (n, nt) = det_types_case!(s, 4, Mat4, Mat4, e, &p4, true); s.evals(n, nt); });
+        par_cube(s, &[-3, -2, -1, 0, 1, 2, 3], 4, |p| det_types_case!(s, 2, Mat2, Mat2, flat_entries::<2>(p), &p2, true));
+        if th { par_cube(s, &[-2, -1, 0, 1, 2], 9, |p| det_types_case!(s, 3, Mat3, Mat3, flat_entries::<3>(p), &p3, true)); }
+        else { par_cube(s, &[-1, 0, 1], 9, |p| det_types_case!(s, 3, Mat3, Mat3, flat_entries::<3>(p), &p3, true)); }
+        par_cube(s, &[-1, 1], 16, |p| det_types_case!(s, 4, Mat4, Mat4, flat_entries::<4>(p), &p4, true));
+        if th { par_cube(s, &[-1, 0, 1], 16, |p| det_types_case!(s, 4, Mat4, Mat4, flat_entries::<4>(p), &p4, false)); }
+        s.sample(json!({"M (i32/i64/f32/f64)": signed_entries::<3>(&[1, 0, 2, 0, 1, 0, 0, 0, 1], 0), "law": "determinant() == Leibniz expansion computed in i128"}));
+    });
+
+    rep.section("determinant is multiplicative: mixed-layout products, *= and signed operands",
+        "det(A*B) = det(A)det(B) for row*col (column-major result), col*row (row-major result), the in-place `*=` of both layouts and the plain products, on the signed affine image of L(2N^2, D) (two different images for A and B): N=2: D=4, N=3: D=4 (thorough 5), N=4: D=3 (thorough 4); non-trivial: det(A)det(B) != 0", true, false, |s| {
+        detmul_forms!(s, 2, Mat2, Mat2, 4);
+        detmul_forms!(s, 3, Mat3, Mat3, if th { 5 } else { 4 });
+        detmul_forms!(s, 4, Mat4, Mat4, if th { 4 } else { 3 });
+        s.sample(json!({"law": "det(A*B) == det(A)*det(B)", "forms": ["Rows*Cols", "Cols*Rows", "Rows*=Rows", "Cols*=Cols"], "A": signed_entries::<2>(&[1, 0, 2, 0], 0), "B": signed_entries::<2>(&[0, 1, 0, 1], 1)}));
+    });
+
+    rep.section("general 4x4 inverse, f32 and f64, against the exact adjugate over determinant",
+        "E = signed affine image of L(16, 3 quick / 5 thorough) around a non-singular base, M = E * 2^-k exactly representable (f64: k in {0, 20, -20, 60, -60}; f32: k in {0, 8, -8, 20, -20}); inverted()/invert() of both layouts must equal adj(E)/det(E) * 2^k (integer reference) within two roundings (cofactors and determinant are exact in the float type: integers < 2^24 times a power of two; the only roundings are 1/det and the final product): |got - want| <= 2 EPSILON |want|, compared in exact rationals; non-trivial: every non-singular E", true, false, |s| {
+        s.require_classes(&["f32", "f64", "unscaled", "scaled-down (tiny determinant)", "scaled-up (huge determinant)", "negative-determinant"]);
+        let base = [2i64, 0, 1, 0, 0, 3, 0, 1, 1, 0, 1, 0, 0, 1, 0, 2];
+        par_lattice(16, if th { 5 } else { 3 }, |p| {
+            let mut e = [[0i64; 4]; 4];
+            for i in 0..4 { for j in 0..4 { let k = i * 4 + j; e[i][j] = (if (i + j) % 2 == 0 { 1 } else { -1 }) * p[k] + base[k] * (if k % 3 == 2 { -1 } else { 1 }); } }
+            let ei: A<i128, 4> = std::array::from_fn(|i| std::array::from_fn(|j| e[i][j] as i128));
+            let (dref, aref) = (det_i(&ei), adj_i(&ei));
+            if dref == 0 { s.eval(false); s.class("singular(skipped)"); return; }
+            if dref < 0 { s.class("negative-determinant"); }
+            let w = p.iter().sum::<i64>() as u64;
+            inv_float!(s, f64, &e, aref, dref, &[0, 20, -20, 60, -60], w);
+            inv_float!(s, f32, &e, aref, dref, &[0, 8, -8, 20, -20], w);
+            if s.wants_sample() && w == 3 { s.sample(json!({"E": e, "det": dref.to_string(), "law": "inverted(E * 2^-k) == adj(E)/det(E) * 2^k within two roundings"})); }
+        });
+    });
+
+    rep.section("rigid and TRS fast inverses: reference from the parameters, extreme scales and translations, call sequences",
+        "M = T*R (rigid) and M = T*R*S with R = Rodrigues matrix of rational unit axes (quick: every 5th of 103; thorough: all) x 12 rational circle points, T in {0, (1/3,-7/5,2^30), (-2^20,5,-2^-10)}, S from scale triples that mix moderate (1/2,2,-3), small but above the code's own 'negligible' threshold (scale^2 > epsilon = 2^-52: 2^-10, 2^-20, 2^-25), huge (1000, 2^20) and negative values (quick: 8 triples; thorough: all 343 triples of a 7-letter alphabet); the oracle is built from the parameters only: inverse linear part = S^-1 R^T, inverse translation = -S^-1 R^T t (validated by reference products M*want = want*M = I, a machinery error otherwise); inverted_affine_transform(_no_scale) and the in-place twins of both layouts must equal it and, where the exact general inverse does not overflow the rational type, inverted(); sequences: inverting twice in place (rigid fast inverse, general inverse) restores M; non-trivial: R != I", true, false, |s| {
+        s.require_classes(&["rigid", "trs-moderate", "trs-small-scale-above-threshold", "trs-huge-scale", "trs-mixed-magnitudes", "invert-twice"]);
+        let axes = unit_axes(); let circ = circle_points();
+        let p2 = |k: i32| if k >= 0 { qi(1i128 << k) } else { q(1, 1i128 << -k) };
+        let trs: Vec<[X; 3]> = vec![[qi(0); 3], [q(1, 3), q(-7, 5), p2(30)], [-p2(20), qi(5), -p2(-10)]];
+        let scs: Vec<[X; 3]> = if th { let al = [p2(-25), p2(-20), -p2(-10), q(1, 3), q(-7, 5), qi(1000), p2(20)]; let mut o = Vec::new(); for a in al { for b in al { for c in al { o.push([a, b, c]); } } } o }
+            else { vec![[q(1, 2), qi(2), qi(-3)], [p2(-10); 3], [p2(-20), qi(1), p2(20)], [p2(-25), q(-7, 5), qi(1000)], [p2(20); 3], [-p2(-10), q(1, 3), p2(-20)], [qi(1), qi(1), p2(-25)], [p2(-25); 3]] };
+        let (id4, id3) = (ident::<X, 4>(), ident::<X, 3>());
+        let work: Vec<(usize, usize)> = (0..axes.len()).filter(|i| th || i % 5 == 2).flat_map(|i| (0..circ.len()).map(move |j| (i, j))).collect();
+        use rayon::prelude::*;
+        work.par_iter().for_each(|&(ai, ci)| {
+            let r3 = rodrigues(&axes[ai], circ[ci].0, circ[ci].1);
+            let nontriv = r3 != id3;
+            // reference inverse of T*R*S from the parameters
+            let reference = |sc: &[X; 3], t: &[X; 3]| -> A<X, 4> {
+                let mut w = id4;
+                for i in 0..3 { let mut ti = qi(0); for j in 0..3 { w[i][j] = r3[j][i] / sc[i]; ti = ti - r3[j][i] * t[j] / sc[i]; } w[i][3] = ti; }
+                w
+            };
+            macro_rules! fast { ($cls:expr, $m:expr, $want:expr, $fast:ident, $fast_inplace:ident, $name:expr, $general:expr) => {{
+                let (m, want): (A<X, 4>, A<X, 4>) = ($m, $want);
+                for lay in ["row", "col"] {
+                    s.eval(nontriv); s.class($cls);
+                    let got = if lay == "row" { s.call($name, || jmat(&m), || { let mm = rm::Mat4::<X>::build(&m); let mut g = mm; g.$fast_inplace(); (mm.$fast().decode(), g.decode()) }) }
+                              else { s.call($name, || jmat(&m), || { let mm = cm::Mat4::<X>::build(&m); let mut g = mm; g.$fast_inplace(); (mm.$fast().decode(), g.decode()) }) };
+                    let site = format!("Mat4<{}>::{}", lay, $name);
+                    if let Some((f, g)) = got {
+                        if f != want { s.violation(&site, "differs-from-reference-inverse", json!({"M": jmat(&m), "got": jmat(&f), "want": jmat(&want)})); }
+                        if g != f { s.violation(&site, "in-place-form-differs", json!({"M": jmat(&m)})); }
+                        if $general {
+                            let gen = if lay == "row" { s.call("inverted", || jmat(&m), || rm::Mat4::<X>::build(&m).inverted().decode()) } else { s.call("inverted", || jmat(&m), || cm::Mat4::<X>::build(&m).inverted().decode()) };
+                            if let Some(gen) = gen { if gen != f { s.violation(&site, "differs-from-general-inverse", json!({"M": jmat(&m), "got": jmat(&f), "want": jmat(&gen)})); } }
+                        }
+                    }
+                }
+            }} }
+            for t in &trs {
+                let m = affine4(&r3, t);
+                let want = match catch(|| { let w = reference(&[qi(1); 3], t); (w, mmul(&m, &w), mmul(&w, &m)) }) { Ok((w, l, r)) => { if l != id4 || r != id4 { s.rep.machinery_error(format!("reference rigid inverse wrong at axis {} circle {}", ai, ci)); } w }, Err(_) => { s.unmodelled("rational overflow in the reference"); continue } };
+                fast!("rigid", m, want, inverted_affine_transform_no_scale, invert_affine_transform_no_scale, "inverted_affine_transform_no_scale", true);
+                fast!("rigid", m, want, inverted_affine_transform, invert_affine_transform, "inverted_affine_transform", true);
+                // call sequences: inverting twice in place restores the matrix
+                for lay in ["row", "col"] {
+                    s.eval(nontriv); s.class("invert-twice");
+                    let got = if lay == "row" { s.call("invert twice", || jmat(&m), || { let mut a = rm::Mat4::<X>::build(&m); a.invert_affine_transform_no_scale(); a.invert_affine_transform_no_scale(); let mut b = rm::Mat4::<X>::build(&m); b.invert(); b.invert(); let mut c = rm::Mat4::<X>::build(&m); c.invert_affine_transform(); c.invert(); (a.decode(), b.decode(), c.decode()) }) }
+                              else { s.call("invert twice", || jmat(&m), || { let mut a = cm::Mat4::<X>::build(&m); a.invert_affine_transform_no_scale(); a.invert_affine_transform_no_scale(); let mut b = cm::Mat4::<X>::build(&m); b.invert(); b.invert(); let mut c = cm::Mat4::<X>::build(&m); c.invert_affine_transform(); c.invert(); (a.decode(), b.decode(), c.decode()) }) };
+                    if let Some((a, b, c)) = got {
+                        if a != m { s.violation(&format!("Mat4<{}>::invert_affine_transform_no_scale", lay), "inverting-twice-does-not-restore-the-matrix", json!({"M": jmat(&m), "got": jmat(&a)})); }
+                        if b != m { s.violation(&format!("Mat4<{}>::invert", lay), "inverting-twice-does-not-restore-the-matrix", json!({"M": jmat(&m), "got": jmat(&b)})); }
+                        if c != m { s.violation(&format!("Mat4<{}>::invert_affine_transform", lay), "general-inverse-of-the-fast-inverse-does-not-restore-the-matrix", json!({"M": jmat(&m), "got": jmat(&c)})); }
+                    }
+                }
+                for sc in &scs {
+                    let ab = |v: &X| if *v < qi(0) { -*v } else { *v }; let small = sc.iter().any(|v| ab(v) <= p2(-10)); let huge = sc.iter().any(|v| ab(v) >= qi(1000));
+                    let cls = if small && huge { "trs-mixed-magnitudes" } else if small { "trs-small-scale-above-threshold" } else if huge { "trs-huge-scale" } else { "trs-moderate" };
+                    let built = catch(|| { let mut l = r3; for i in 0..3 { for j in 0..3 { l[i][j] = r3[i][j] * sc[j]; } } let m = affine4(&l, t); let w = reference(sc, t); let (a, b) = (mmul(&m, &w), mmul(&w, &m)); (m, w, a, b) });
+                    let (m, want) = match built { Ok((m, w, a, b)) => { if a != id4 || b != id4 { s.rep.machinery_error(format!("reference TRS inverse wrong at axis {} circle {}", ai, ci)); } (m, w) }, Err(_) => { s.unmodelled("rational overflow in the reference"); continue } };
+                    fast!(cls, m, want, inverted_affine_transform, invert_affine_transform, "inverted_affine_transform", !small && !huge);
+                }
+            }
+            if s.wants_sample() && nontriv { let sc = [p2(-20), qi(1), p2(20)]; let mut l = r3; for i in 0..3 { for j in 0..3 { l[i][j] = r3[i][j] * sc[j]; } } s.sample(json!({"M = T*R*S": jmat(&affine4(&l, &trs[1])), "scale": jxs(&sc), "law": "inverted_affine_transform(M) == [S^-1 R^T | -S^-1 R^T t]"})); }
+        });
+    });
+
+    rep.section("fast inverses, f32 and f64: value and in-place forms, small and large scales, derived bounds",
+        "angles on a grid of (-2pi, 2pi) (24 quick / 720 thorough) x 26 integer axes in {-1,0,1}^3 x 3 translations x scale triples (1,1,1), (2^-10,1,2^10), (-2^-10,2^-10,2^-10), (3,-1/2,2^10) and for f64 also (2^-20,2^20,1), (2^-25,2^-25,2^-25) - all with scale^2 well above the type's epsilon, the code's own 'negligible' threshold; M = T*R*S is built in f64 and rounded to the type; inverted_affine_transform (and for unit scale inverted_affine_transform_no_scale and inverted) of both layouts, with the in-place twin equal bit for bit; residuals in f64: |(M*inv - I)_ij| <= c, |(inv*M - I)_ij| <= c |s_j|/|s_i| on the 3x3 block, translation column c (1 + |t|_1) resp. c (1 + |t|_1)/|s_i|, c = 64 EPSILON (the columns of the rounded R are orthonormal within ~16 EPSILON, the scale cancels exactly in M*inv and leaves s_j/s_i in inv*M); non-trivial: all", true, false, |s| {
+        s.require_classes(&["f32", "f64", "rigid", "trs", "trs-small-scale-above-threshold"]);
+        let nang = if th { 720 } else { 24 };
+        let p = |k: i32| 2f64.powi(k);
+        fast_float!(s, f32, nang, [[1.0, 1.0, 1.0], [p(-10), 1.0, p(10)], [-p(-10), p(-10), p(-10)], [3.0, -0.5, p(10)], [2.0, 0.5, 3.0]]);
+        fast_float!(s, f64, nang, [[1.0, 1.0, 1.0], [p(-10), 1.0, p(10)], [-p(-10), p(-10), p(-10)], [3.0, -0.5, p(10)], [2.0, 0.5, 3.0], [p(-20), p(20), 1.0], [p(-25), p(-25), p(-25)]]);
+        s.sample(json!({"type": "f32", "angle": -6.1863, "axis": [1, -1, 0], "t": [-1000.0, 7.0, 0.25], "scale": [p(-10), 1.0, p(10)]}));
     });
     std::process::exit(rep.finish());
 }
